@@ -789,13 +789,18 @@ def size(roots):
 
 
 # ------------------------------------------------------------------ substitution (slices)
-def substitute(roots, env):
-    """Replace variables by constants (env: {name: Fraction}) and rebuild through the
-    normalising constructors.  Returns the list of new roots."""
+def substitute(roots, env, nodes=None):
+    """Replace variables by constants (env: {name: Fraction}) - and, optionally, whole nodes by terms
+    (nodes: {node id: term}; the caller justifies each replacement by a proved equality) - and rebuild
+    through the normalising constructors.  Returns the list of new roots."""
     memo = {}
     cenv = {k: const(v) for k, v in env.items()}
+    nodes = nodes or {}
     for t in reachable(list(roots)):
         op = t.op
+        if t.id in nodes:
+            memo[t.id] = nodes[t.id]
+            continue
         if op == 'v':
             n = cenv.get(t.val, t)
         elif op in ('c', 'b'):
